@@ -62,10 +62,25 @@ def _pair(job):
     return out
 
 
+def _scan(job):
+    """Planned cost of every sub-problem (n, s), lo <= n <= hi, straight from the library's planner."""
+    NP, SP, lo, hi = job
+    from .. import lib
+    out = []
+    for n in range(lo, hi + 1):
+        for s in range(min(1, n - 1), min(SP, n - 1 if n > 1 else 0) + 1):
+            try:
+                c = int(lib.quiet(lib.cs_mixed.mixed_step_memoization, n, s)[2])
+            except Exception:
+                c = -1
+            out.append((n, s, c))
+    return out
+
+
 def _gen(job):
     tier, seed, count = job
     from hypothesis import strategies as st
-    nmax = 64 if tier == "quick" else 300
+    nmax = 120 if tier == "quick" else 300
 
     @st.composite
     def ns(draw):
@@ -97,11 +112,29 @@ def run(prop, args):
     if bad:
         R.harness_error("mixed oracles disagree (search vs dp): %s" % bad[:5])
     rep.extra["oracle_selfcheck"] = {"search_vs_dp_instances": len(sc), "search_n_max": NS}
-    NB = 22 if tier == "quick" else 40
+    NB = 64 if tier == "quick" else 150
     jobs = [(n, s) for n in range(1, NB + 1) for s in range(min(1, n - 1), n + 2)]
     boxn = len(jobs)
+    # planner scan: a dense, cheap search for sub-problems whose planned cost is not the optimum
+    # (defects of a DP are sparse in (n, s)); every candidate is then CONFIRMED by running the stream
+    NP, SP = (220, 40) if tier == "quick" else (420, 48)
+    scan = R.pmap(_scan, [(NP, SP, lo, min(lo + 19, NP)) for lo in range(1, NP + 1, 20)], chunksize=1)
+    table = O.dp_mixed_table(NP, SP)
+    for n in range(1, min(NP, 40) + 1):
+        for sx in range(min(1, n - 1), min(SP, n) + 1):
+            if table[n, sx] != O.dp_mixed(n, sx):
+                R.harness_error("dp_mixed_table != dp_mixed at (%d,%d)" % (n, sx))
+    cand = []
+    scanned = 0
+    for part in scan:
+        for (n, sx, cost) in part:
+            scanned += 1
+            if cost != int(table[n, min(sx, n - 1) if n > 1 else 0]):
+                cand.append((n, sx))
+    rep.extra["planner_scan"] = {"entries": scanned, "n_max": NP, "s_max": SP, "candidates_confirmed_by_stream": len(cand)}
     gen = _gen((tier, args.seed, 250 if tier == "quick" else 2500))
-    jobs = jobs + [j for j in gen if j not in set(jobs)]
+    known = set(jobs)
+    jobs = jobs + [j for j in sorted(set(cand[:400]) | set(gen)) if j not in known]
     res = R.pmap(_pair, jobs)
     rep.exhaustive = [{"box": "Mixed n<=%d, every s in min(1,n-1)..n+1, both storages" % NB, "cases": boxn, "exhaustive": True}]
     for out in res:
